@@ -314,6 +314,9 @@ pub enum Act {
     Tick,
     /// advance the clock by at most this many ms, stopping at the connection's next timer
     Wait(u64),
+    /// let exactly this many ms pass, polling the connection whenever its timer wakes it
+    /// (linear scenarios only: several polls in one step)
+    Sleep(u64),
     /// the local link starts / stops rejecting datagrams above this size with EMSGSIZE
     Emsgsize(Option<usize>),
     /// the next send attempt finds the transport not ready
@@ -1201,7 +1204,7 @@ impl World {
             Act::Read(_) => self.reader.is_some() && self.r_parked == Parked::No && !self.reader_eof && self.reader_err.is_none(),
             Act::DropReader => self.reader.is_some(),
             Act::DropWriter => self.writer.is_some(),
-            Act::Deliver(_) | Act::Deliver2(..) | Act::Spurious | Act::Tick | Act::Wait(_) => self.done.is_none(),
+            Act::Deliver(_) | Act::Deliver2(..) | Act::Spurious | Act::Tick | Act::Wait(_) | Act::Sleep(_) => self.done.is_none(),
             Act::Emsgsize(x) => self.tr.lock().emsgsize_above != *x,
             Act::TransportPendingOnce => !self.tr.lock().pending_once && self.done.is_none(),
             Act::RepollWriterOtherTask => self.writer.is_some() && self.w_parked != Parked::No,
@@ -1282,6 +1285,19 @@ impl World {
                 if !self.d.is_set() {
                     let d = self.d.clone();
                     let _ = tokio::time::timeout(Duration::from_millis(*ms), FlagFuture(&d)).await;
+                }
+            }
+            Act::Sleep(ms) => {
+                let deadline = tokio::time::Instant::now() + Duration::from_millis(*ms);
+                loop {
+                    if self.d.is_set() {
+                        self.poll_d(&mut rec);
+                    }
+                    if self.done.is_some() || tokio::time::Instant::now() >= deadline {
+                        break;
+                    }
+                    let d = self.d.clone();
+                    let _ = tokio::time::timeout_at(deadline, FlagFuture(&d)).await;
                 }
             }
             Act::Emsgsize(x) => self.tr.lock().emsgsize_above = *x,
